@@ -89,7 +89,16 @@ read_stmts(struct lysp_stmt **list)
     *list = NULL;
     while (1) {
         if (get_keyword(yctx, &kw, &word, &word_len)) return errkind();
-        if (parse_ext_substmt(yctx, kw, word, word_len, list)) return errkind();
+        if (parse_ext_substmt(yctx, kw, word, word_len, list)) {
+            /* the statement being read is already linked in: only complete top-level statements are reported */
+            struct lysp_stmt **p = list;
+            const char *k = errkind();
+
+            while ((*p)->next) p = &(*p)->next;
+            stmt_free(*p);
+            *p = NULL;
+            return k;
+        }
     }
 }
 
